@@ -1387,3 +1387,54 @@ def rule_sd_file_id_halves(ctx):
             ctx.violated("IDHALVES", key, f.where(), "acts on `id & 0xffff` while SDIhandle_from_id validates only `id >> 20`: an id mixing two open files passes and the call lands on the other file")
     ctx.floor("IDHALVES", 2, n, "(file-level SD routines that act on the low half of the id)")
     return n
+
+
+def rule_index_below_count(ctx):
+    """IDXCOUNT (C13): ids of data sets, dimensions and attributes carry an index into an NC_array (`values[0 .. count-1]`).
+    A routine that turns away a bad index with a comparison against `->count` and then steps into `->values` with that index
+    (`ap += index`, `values[index]`) must turn away `index == count` as well: the comparison is `>=`, not `>`.  One slot past
+    the table is whatever the allocator left there, and the routine goes on to dereference it."""
+    from .codec import ast_walk
+    from .rules_loops import _terminates
+    prog = ctx.prog
+    n = 0
+    for f in prog.lib_funcs():
+        ast = f.raw.get("ast")
+        if not ast or not f.rel.startswith("mfhdf/src/"):
+            continue
+        guards = []
+
+        def vis(nd, st):
+            if nd[0] == "if" and nd[1] is not None and _terminates(nd[2]):
+                for x in walk(nd[1], True):
+                    if x[0] == "bin" and x[1] in (">", ">="):
+                        l_, r_ = strip(x[2]), strip(x[3])
+                        if kind(l_) == "var" and kind(r_) == "mem" and r_[2] == "count":
+                            guards.append((nd, l_[1], x[1], render(r_)))
+            return True
+
+        ast_walk(ast, vis)
+        if not guards:
+            continue
+        used = set()
+        for _b, _i, _s, x in f.nodes(True):
+            if x[0] == "asg" and x[1] == "+=" and kind(strip(x[3])) == "var":
+                used.add(strip(x[3])[1])
+            elif x[0] == "idx" and kind(strip(x[2])) == "var":
+                used.add(strip(x[2])[1])
+            elif x[0] == "bin" and x[1] == "+" and kind(strip(x[3])) == "var" and "*" in str(x[-1] if isinstance(x[-1], str) else ""):
+                used.add(strip(x[3])[1])
+        k = 0
+        for nd, v, op, cnt in guards:
+            if v not in used:
+                continue
+            k += 1
+            n += 1
+            key = "IDXCOUNT:%s:%s#%d" % (f.name, v, k)
+            line = nd[-3] if isinstance(nd[-3], int) else f.line
+            if op == ">=":
+                ctx.holds("IDXCOUNT", key, f.where(line), "`%s >= %s` is turned away before `%s` indexes the table" % (v, cnt[:30], v), nontrivial=True)
+            else:
+                ctx.violated("IDXCOUNT", key, f.where(line), "`%s > %s` lets %s == count through, and `%s` then indexes the table: the slot behind the last element is read and dereferenced" % (v, cnt[:30], v, v))
+    ctx.floor("IDXCOUNT", 2, n, "(index guards against an NC_array count)")
+    return n
